@@ -354,10 +354,22 @@ def selectF : Nat → List Path → Bool → Bool → Entry → Entry × Except 
 
 def maxLen (keys : List Path) : Nat := keys.foldl (fun m p => max m p.length) 0
 
+/-- `td.select(*keys, strict, inplace)`. After the `fix:` commit an in-place call first computes the selection out of place
+(`self._select(*keys, inplace=False, …)`), which raises in exactly the same cases without touching anything; only then
+are the nested tensordicts pruned in place. (The nested in-place calls repeat that dry run on their own subtree; it cannot
+fail once the outer one has succeeded — Props/C04.lean `select_inplace_agrees` — so it is modelled at the outermost call only.) -/
 def selectT (keys : List Path) (strict inplace : Bool) (t : Entry) : Entry × Out :=
-  match selectF (maxLen keys + 1) keys strict inplace t with
-  | (t', .error e) => (t', .err e)
-  | (t', .ok r) => if inplace then (t', .ok) else (t', .res [r])
+  if inplace then
+    match (selectF (maxLen keys + 1) keys strict false t).2 with
+    | .error e => (t, .err e)
+    | .ok _ =>
+      match selectF (maxLen keys + 1) keys strict true t with
+      | (t', .error e) => (t', .err e)
+      | (t', .ok _) => (t', .ok)
+  else
+    match selectF (maxLen keys + 1) keys strict false t with
+    | (t', .error e) => (t', .err e)
+    | (t', .ok r) => (t', .res [r])
 
 /-- first loop of `_exclude`: string keys are popped at once, nested keys are grouped by their first
 component when that component is bound in the receiver -/
